@@ -164,7 +164,7 @@ def boolean_shapes(depth2=True, with_const=True):
     if depth2:
         for inner in d1:
             out += [("Not", inner), ("And", inner, c), ("Or", c, inner), ("Implies", inner, c), ("Implies", c, inner),
-                    ("Iff", inner, c), ("Ite", inner, a, c), ("Ite", c, inner, a), ("Ite", c, a, inner),
+                    ("Iff", inner, c), ("Iff", c, inner), ("Ite", inner, a, c), ("Ite", c, inner, a), ("Ite", c, a, inner),
                     ("Not", ("Not", inner))]
     return [Shape(t) for t in out]
 
